@@ -32,7 +32,7 @@ def main():
                 parts = s.split(old)
                 s = old.join(parts[:occ + 1]) + new + old.join(parts[occ + 1:])
             open(p, "w").write(s)
-        env = dict(os.environ, NUCLEO_REPO=d)
+        env = dict(os.environ, NUCLEO_REPO=d, VERIF_EVIDENCE_DIR=os.path.join(d, ".evidence"))
         rc_all = {}
         for pr in props:
             r = subprocess.run([os.path.join(VERIF, "check"), pr], env=env, capture_output=True, text=True)
